@@ -331,6 +331,15 @@ ZOO = [
     # 10: a tuned track (standard guitar) filled by from_chords: chords come out as fingerings that use open strings
     [{"key": "C", "meter": [4, 4], "entries": [], "from_chords": ["E", "A", "Em", "E"], "tuning": ["Guitar", "Standard tuning"]},
      {"key": "C", "meter": [4, 4], "entries": []}, {"key": "C", "meter": [4, 4], "entries": []}, {"key": "C", "meter": [4, 4], "entries": []}],
+    # 14: a track that carries an instrument (all notes inside a piano's range, also after the operations of the bfs)
+    [{"key": "C", "meter": [4, 4], "instrument": "Piano", "entries": [_e("4", [["C", 4]], "note"), _e("4", [["E", 4], ["G", 4]], "nc"), _e("2", None)]},
+     {"key": "C", "meter": [4, 4], "entries": [_e("1", [["A", 3], ["C", 4], ["E", 4]], "nc")]}],
+    # 15: entries whose container is an instance of a NoteContainer subclass
+    [{"key": "C", "meter": [4, 4], "entries": [_e("4", [["D", 4], ["F", 4]], "subclass"), _e("4", [["A", 4]], "nc"), _e("2", [["C", 5], ["E", 5]], "subclass")]}],
+    # 13: built by from_chords in 3/4 with whole-note chords: every chord is split over a bar line (two entries, one chord each)
+    [{"key": "C", "meter": [3, 4], "entries": [_e("2.", [["C", 4], ["E", 4], ["G", 4]], "nc")], "from_chords": ["C", "Am"], "first_meter": [3, 4]},
+     {"key": "C", "meter": [3, 4], "entries": [_e("4", [["C", 4], ["E", 4], ["G", 4]], "nc"), _e("2", [["A", 4], ["C", 5], ["E", 5]], "nc")]},
+     {"key": "C", "meter": [3, 4], "entries": [_e("2", [["A", 4], ["C", 5], ["E", 5]], "nc")]}],
     # 12: an empty bar between two bars that hold notes (a silent bar), and one at the very start
     [{"key": "C", "meter": [4, 4], "entries": []},
      {"key": "C", "meter": [4, 4], "entries": [_e("2", [["C", 4], ["E", 4]], "nc"), _e("2", [["G", 4]], "note")]},
@@ -382,9 +391,19 @@ def generated_tracks():
     return out
 
 
+class _OwnContainer(NoteContainer):
+    """a caller's own NoteContainer subclass (a chord class with extra methods, say): still a container of notes"""
+
+    def label(self):
+        return "chord of %d" % len(self.notes)
+
+
 def build(desc):
     """-> (real Track, model).  model[b][e] = None | [[letter, pitch number], ...]"""
     t = Track()
+    if desc and desc[0].get("instrument") == "Piano":
+        from mingus.containers.instrument import Piano
+        t = Track(Piano())
     model = []
     via_chords = bool(desc) and "from_chords" in desc[0]
     tuned = via_chords and "tuning" in desc[0]
@@ -395,6 +414,8 @@ def build(desc):
         import mingus.extra.tunings as _tun
         t.set_tuning(_tun.get_tuning(desc[0]["tuning"][0], desc[0]["tuning"][1]))
     if via_chords:
+        if "first_meter" in desc[0]:
+            t.add_bar(Bar(desc[0]["key"], tuple(desc[0]["first_meter"])))
         t.from_chords(list(desc[0]["from_chords"]), 1)
     if tuned:
         snap = snapshot(t)
@@ -420,6 +441,8 @@ def build(desc):
                     ok = b.place_notes("%s-%d" % tuple(content[0]), v)
                 elif form == "list" and notes:
                     ok = b.place_notes(notes, v)
+                elif form == "subclass":
+                    ok = b.place_notes(_OwnContainer(notes), v)
                 elif form == "set":
                     # notes put in place one by one (nc[i] = Note): equal-sounding notes side by side, any order
                     nc = NoteContainer([Note("C", i) for i in range(len(notes))])
@@ -797,7 +820,7 @@ def explore(ctx):
         depth = ctx.pick(3, 4)
         aset = ctx.pick("narrow", "narrow")
         # quick: the chord-only and the tuplet-value track (many notes, nothing structurally new) go one level less deep
-        depths = {i: (depth - 1 if (ctx.quick and i in (1, 3, 6, 7, 8, 9, 10, 11, 12)) else depth) for i in range(len(ZOO))}
+        depths = {i: (depth - 1 if (ctx.quick and i in (1, 3, 6, 7, 8, 9, 10, 11, 12, 13, 14, 15)) else depth) for i in range(len(ZOO))}
         ctx.bound("history_depth", {str(i): d for i, d in depths.items()})
         ctx.bound("history_actions", {"set": aset, "targets": {str(i): action_targets(i, aset) for i in range(len(ZOO))}, "ops": bfs_ops()})
         for i in range(len(ZOO)):
